@@ -309,6 +309,9 @@ func runBatch(total int, nworkers int, deadline time.Time, agg *aggregate) {
 				wk := startWorker()
 				count := (total - next + nworkers - 1) / nworkers
 				limited := false
+				if v := os.Getenv("VERIF_RESTART_EVERY"); v != "" { // development only
+					spec.RestartEvery, _ = strconv.Atoi(v)
+				}
 				if spec.RestartEvery > 0 && count > spec.RestartEvery {
 					// fresh processes at intervals: process-wide lazy initialisation
 					// (parser tables, package-level caches) is then cold again
@@ -474,7 +477,7 @@ func (s *shrinker) same(tp []uint64) bool {
 		if f.Class != s.class {
 			continue
 		}
-		if f.Locator == s.locator {
+		if f.Locator == s.locator || (s.class == "data-race" && shareFrame(f.Locator, s.locator)) {
 			ok = true
 			break
 		}
@@ -492,6 +495,20 @@ func (s *shrinker) same(tp []uint64) bool {
 }
 
 type failure struct{ Class, Locator, Detail string }
+
+// shareFrame reports whether two data-race locators (frames=a|b) name a common function.
+func shareFrame(a, b string) bool {
+	fa := strings.Split(strings.TrimPrefix(a, "frames="), "|")
+	fb := strings.Split(strings.TrimPrefix(b, "frames="), "|")
+	for _, x := range fa {
+		for _, y := range fb {
+			if x != "" && x == y {
+				return true
+			}
+		}
+	}
+	return false
+}
 
 func resourceClass(c string) bool {
 	return c == "livelock" || c == "process-killed" || c == "alloc-over-budget"
@@ -852,6 +869,21 @@ func main() {
 		for _, f := range failuresOf(r) {
 			if resourceClass(f.Class) && resourceClass(class) {
 				return f, true
+			}
+		}
+		// The race detector remembers a bounded, randomly evicted set of earlier
+		// accesses per memory word: the same schedule always races, but WHICH
+		// earlier access the report names can differ between two executions.
+		if class == "data-race" {
+			for _, f := range failuresOf(r) {
+				if f.Class == class && shareFrame(f.Locator, locator) {
+					return f, true
+				}
+			}
+			for _, f := range failuresOf(r) {
+				if f.Class == class {
+					return f, true
+				}
 			}
 		}
 		return failure{}, false
